@@ -1,7 +1,9 @@
 //! Correspondence harness: runs portus (path dependency on /repo's working tree) on generated
 //! inputs and prints canonical `cmd \t arg \t result` lines.  One PRNG (splitmix64) seeded
 //! from the command line drives every choice, so runs replay exactly.
+mod cursor;
 mod rng;
+mod script;
 mod util;
 mod wire;
 
@@ -18,6 +20,7 @@ fn main() {
     match args[1].as_str() {
         "c04" => wire::run_c04(&tier, seed, &mut out),
         "c07" => wire::run_c07(&tier, seed, &mut out),
+        "c08" => cursor::run_c08(&tier, seed, &mut out),
         // re-evaluate given cases (corpus / replay / shrinking): stdin lines `cmd \t arg [\t ...]`
         "eval" => {
             let stdin = std::io::stdin();
@@ -36,7 +39,9 @@ fn main() {
 }
 
 fn eval(cmd: &str, arg: &str) -> String {
-    match cmd {
+    let (name, param) = cmd.split_once(':').unwrap_or((cmd, ""));
+    match name {
+        "cursor" => cursor::eval(param, arg),
         "frombuf" => wire::frombuf_str(&util::unhex(arg)),
         "rt" => wire::parse_m(arg).map(|m| wire::rt_str(&m)).unwrap_or_else(|| "UNPARSABLE".into()),
         "concat" => wire::concat_eval(arg),
